@@ -12,7 +12,7 @@ use crate::w64::{reference_w64, DW, FW, W64};
 use exmex::Express;
 use serde_json::json;
 
-const PATHS: &[&str] = &["flat", "flat_wo"];
+const PATHS: &[&str] = &["flat", "flat_wo", "flat_vec", "flat_iter", "flat_wo_vec"];
 
 pub fn tree_size(rng: &mut Rng) -> usize {
     match rng.below(100) {
